@@ -173,6 +173,24 @@ pub fn gen(tier: &str, rng: &mut Rng, emit: &mut dyn FnMut(String)) {
             emit(format!("buf {} rp:{i}:{} ob of", hex(p.as_bytes()), hex(b"w/~")));
         }
     }
+    // replace at EVERY index of buffers a little longer than small inline tables (8, 16, 32 entries)
+    for n in [7usize, 8, 9, 15, 16, 17, 18, 31, 32, 33, 34] {
+        let p: String = (0..n).map(|i| format!("/k{i}")).collect();
+        for i in 0..=n {
+            emit(format!("buf {} rp:{i}:{} ob of", hex(p.as_bytes()), hex(b"w")));
+        }
+    }
+    // word-at-a-time counting mistakes: neighbour bytes of '/' at every alignment; in-range, one-past and far out-of-range replace
+    for (i, p) in swar_pointers().into_iter().enumerate() {
+        if tier != "thorough" && i % 3 != 0 {
+            continue;
+        }
+        let n = p.matches('/').count();
+        for idx in [n - 1, n, n + 1, usize::MAX] {
+            emit(format!("buf {} rp:{idx}:{} ob", hex(p.as_bytes()), hex(b"w")));
+        }
+        emit(format!("buf {} pf:{} rp:{n}:{} rp:{}:{}", hex(p.as_bytes()), hex(b"z"), hex(b"w"), n + 1, hex(b"w")));
+    }
     for n in MANY {
         let p: String = (0..n).map(|i| format!("/t~0{}", i % 3)).collect();
         for i in [0, 1, n / 2, n - 1, n, usize::MAX] {
